@@ -4,6 +4,10 @@
 
 package connectors
 
+// (C15) Nothing in this package creates, replaces, renames or removes a file:
+// the outfile is only ever touched through mapr.(*GroupSet).WriteResult.
+//@ fs-writers-only nothing
+
 // ---- host key trust on the connection side (C17) ---------------------------------------------------
 // The SSH client configuration carries the callback the trust object wraps (so
 // the library asks it about every host key), and a session — the only place
